@@ -98,8 +98,10 @@ static int nontrivial;
 static char describe_buf[900];
 static char scenario_buf[64];
 static uint64_t n_preempt, n_forced, n_handoff, n_idlejump, n_fair;
+static void tso_flush_me(void);
+static void tso_maybe_flush(void);
 static int n_stalled;
-static uint64_t n_foreign_mgr;
+static uint64_t n_foreign_mgr, n_tso_buffered, n_tso_forwarded;
 static int amp_target = -1;
 /* PCT (probabilistic concurrency testing) schedules: strict thread priorities, d-1 random priority change
  * points; complements uniform random preemption for bugs that need few, precisely placed switches */
@@ -130,7 +132,7 @@ void sim_probe(const char* name, uint64_t add) {
 }
 static uint64_t fault_fired[F_NKINDS];
 static const char* const fault_names[F_NKINDS] = {"short_io",     "spurious_eagain", "delayed_report", "epoll_eintr", "thread_stall",
-                                                  "connect_slow", "connect_fail",    "peer_reset",     "alloc_fail",  "epoll_fewer"};
+                                                  "connect_slow", "connect_fail",    "peer_reset",     "alloc_fail",  "epoll_fewer", "tso_flush"};
 uint64_t simk_fault_count(int kind) { return fault_fired[kind]; }
 
 /* ------------------------------------------------------------------ */
@@ -443,6 +445,8 @@ void finish(int code, const char* verdict, const char* oracle, const char* detai
     for (int i = 0; i < 11; i++) sim_probe(sn[i], st[i]);
   }
   if (n_foreign_mgr) sim_probe("foreign_manager_access", n_foreign_mgr);
+  if (n_tso_buffered) sim_probe("tso_stores_buffered", n_tso_buffered);
+  if (n_tso_forwarded) sim_probe("tso_loads_forwarded", n_tso_forwarded);
   if (compact_ok && code == 0) {
     char* b = sim_internal_alloc(8192);
     size_t k = snprintf(b, 8192, "ok %lu %lu %lu %lu %016lx %016lx %d %d %lu %lu %lu %lu %lu %lu|", run_seed, g_steps, busy_steps, now_ns, thash,
@@ -661,6 +665,7 @@ static void check_idle_stuck(void) {
 }
 /* the calling thread has set its state to a blocked one; returns when it may continue */
 void block_me(void) {
+  tso_flush_me();
   T[me].tstep++;
   for (;;) {
     int any = 0;
@@ -723,6 +728,7 @@ void sim_sched_point(int kind) {
 }
 static void sched_point_inner(int kind) {
   account_step(kind);
+  tso_maybe_flush();
   if (preempt_off) return;
   /* fairness bound */
   for (int i = 0; i < nthr; i++)
@@ -827,6 +833,7 @@ void fiber_verif_spin_hint(void) {
   errno = saved_errno;
 }
 static void spin_hint_inner(void) {
+  tso_flush_me();
   if (sim_hook_spin) sim_hook_spin();
   if (pct_on) pct_prio[me] = --pct_low; /* a spinning thread must let the others run */
   account_step(K_SPIN);
@@ -846,8 +853,14 @@ static void spin_hint_inner(void) {
     if (t != UINT64_MAX && t > now_ns) now_ns = t;
   }
 }
-void fiber_verif_dwcas(volatile void* location) { sim_access((const void*)location, 16, K_DWCAS); }
-void fiber_verif_fence(void) { sim_sched_point(K_FENCE); }
+void fiber_verif_dwcas(volatile void* location) {
+  sim_access((const void*)location, 16, K_DWCAS);
+  tso_flush_me();
+}
+void fiber_verif_fence(void) {
+  sim_sched_point(K_FENCE);
+  tso_flush_me();
+}
 
 uint64_t sim_now(void) { return now_ns; }
 uint64_t sim_steps(void) { return g_steps; }
@@ -900,6 +913,7 @@ static void* tramp_fn(void* p) {
   install_altstack();
   fwait(&T[me].go);
   void* r = t.f(t.a);
+  tso_flush_me();
   T[me].st = ST_EXIT;
   T[me].tstep++;
   for (;;) {
@@ -928,6 +942,7 @@ static pthread_t thr_handles[MAXT];
 int __wrap_pthread_create(pthread_t* thd, const pthread_attr_t* at, void* (*f)(void*), void* a) {
   if (!sim_active) return __real_pthread_create(thd, at, f, a);
   if (nthr >= MAXT) sim_violation("SIM-too-many-threads", "%d", nthr);
+  tso_flush_me(); /* thread creation synchronises: everything the creator wrote is visible to the new thread */
   int id = nthr;
   tramps[id].f = f;
   tramps[id].a = a;
@@ -961,16 +976,17 @@ int __wrap_pthread_join(pthread_t th_, void** ret) {
 /* ------------------------------------------------------------------ */
 /* TSan compiler ABI                                                  */
 /* ------------------------------------------------------------------ */
+static void tso_plain(const void* a, size_t n, int is_write);
 #define RW(n)                                                                    \
-  void __tsan_read##n(void* a) { sim_access(a, n, K_PLAIN); }                    \
-  void __tsan_write##n(void* a) { sim_access(a, n, K_PLAIN); }                   \
-  void __tsan_unaligned_read##n(void* a) { sim_access(a, n, K_PLAIN); }          \
-  void __tsan_unaligned_write##n(void* a) { sim_access(a, n, K_PLAIN); }         \
-  void __tsan_volatile_read##n(void* a) { sim_access(a, n, K_PLAIN); }           \
-  void __tsan_volatile_write##n(void* a) { sim_access(a, n, K_PLAIN); }
+  void __tsan_read##n(void* a) { sim_access(a, n, K_PLAIN); tso_plain(a, n, 0); }                    \
+  void __tsan_write##n(void* a) { sim_access(a, n, K_PLAIN); tso_plain(a, n, 1); }                   \
+  void __tsan_unaligned_read##n(void* a) { sim_access(a, n, K_PLAIN); tso_plain(a, n, 0); }          \
+  void __tsan_unaligned_write##n(void* a) { sim_access(a, n, K_PLAIN); tso_plain(a, n, 1); }         \
+  void __tsan_volatile_read##n(void* a) { sim_access(a, n, K_PLAIN); tso_plain(a, n, 0); }           \
+  void __tsan_volatile_write##n(void* a) { sim_access(a, n, K_PLAIN); tso_plain(a, n, 1); }
 RW(1) RW(2) RW(4) RW(8) RW(16)
-void __tsan_write_range(void* a, long n) { sim_access(a, n > 0 ? n : 1, K_PLAIN); }
-void __tsan_read_range(void* a, long n) { sim_access(a, n > 0 ? n : 1, K_PLAIN); }
+void __tsan_write_range(void* a, long n) { sim_access(a, n > 0 ? n : 1, K_PLAIN); tso_plain(a, n > 0 ? n : 1, 1); }
+void __tsan_read_range(void* a, long n) { sim_access(a, n > 0 ? n : 1, K_PLAIN); tso_plain(a, n > 0 ? n : 1, 0); }
 void __tsan_func_entry(void* p) { (void)p; }
 void __tsan_func_exit(void) {}
 void __tsan_init(void) {}
@@ -994,68 +1010,154 @@ void __tsan_switch_to_fiber(void* f, unsigned fl) {
     if (sim_hook_context_switch) sim_hook_context_switch();
   }
 }
+/* ---- optional x86-TSO store buffering for atomic stores weaker than seq_cst (DESIGN 2.11) ----
+ * Every behaviour this produces is allowed by x86-TSO (it is TSO with extra flushes: before every plain
+ * store, RMW, fence, seq_cst store, blocking call, and at random scheduling points). */
+static int tso_on;
+typedef struct {
+  volatile void* a;
+  uint64_t v;
+  int sz;
+} sbe_t;
+static struct {
+  sbe_t e[8];
+  int n;
+} SB[MAXT];
+static void sb_flush(int t) {
+  for (int i = 0; i < SB[t].n; i++) {
+    sbe_t* e = &SB[t].e[i];
+    switch (e->sz) {
+      case 1: __atomic_store_n((volatile uint8_t*)e->a, (uint8_t)e->v, __ATOMIC_SEQ_CST); break;
+      case 2: __atomic_store_n((volatile uint16_t*)e->a, (uint16_t)e->v, __ATOMIC_SEQ_CST); break;
+      case 4: __atomic_store_n((volatile uint32_t*)e->a, (uint32_t)e->v, __ATOMIC_SEQ_CST); break;
+      default: __atomic_store_n((volatile uint64_t*)e->a, e->v, __ATOMIC_SEQ_CST);
+    }
+  }
+  SB[t].n = 0;
+}
+void sim_tso_enable(void) {
+  tso_on = 1;
+  fault_mask |= FBIT(F_TSO_FLUSH);
+}
+static void tso_maybe_flush(void) { /* a recorded, replayable decision like any fault */
+  if (tso_on && me >= 0 && SB[me].n && fault_draw(F_TSO_FLUSH, 4, 1)) sb_flush(me);
+}
+static void tso_flush_me(void) {
+  if (tso_on && me >= 0 && SB[me].n) sb_flush(me);
+}
+static int tso_store(volatile void* a, uint64_t v, int sz, int mo) {
+  if (!tso_on || me < 0 || !sim_active || mo == __ATOMIC_SEQ_CST) return 0;
+  if (SB[me].n == 8) sb_flush(me);
+  sbe_t* e = &SB[me].e[SB[me].n++];
+  e->a = a;
+  e->v = v;
+  e->sz = sz;
+  n_tso_buffered++;
+  return 1;
+}
+static int tso_load(const volatile void* a, int sz, uint64_t* out) {
+  if (!tso_on || me < 0 || !SB[me].n) return 0;
+  for (int i = SB[me].n - 1; i >= 0; i--) {
+    sbe_t* e = &SB[me].e[i];
+    if (e->a == a && e->sz == sz) {
+      *out = e->v;
+      n_tso_forwarded++;
+      return 1;
+    }
+    if ((uintptr_t)e->a < (uintptr_t)a + sz && (uintptr_t)a < (uintptr_t)e->a + e->sz) { /* partial overlap */
+      sb_flush(me);
+      return 0;
+    }
+  }
+  return 0;
+}
+static void tso_plain(const void* a, size_t n, int is_write) {
+  if (!tso_on || me < 0 || !SB[me].n) return;
+  if (is_write) {
+    sb_flush(me); /* plain stores cannot be delayed by this model: keep store order by draining first */
+    return;
+  }
+  for (int i = 0; i < SB[me].n; i++)
+    if ((uintptr_t)SB[me].e[i].a < (uintptr_t)a + n && (uintptr_t)a < (uintptr_t)SB[me].e[i].a + SB[me].e[i].sz) {
+      sb_flush(me);
+      return;
+    }
+}
 #define AT(bits, TY)                                                                                             \
   TY __tsan_atomic##bits##_load(const volatile TY* a, int mo) {                                                  \
     (void)mo;                                                                                                    \
     sim_access((const void*)a, bits / 8, K_ALOAD);                                                               \
+    uint64_t fw;                                                                                                 \
+    if (tso_load((const volatile void*)a, bits / 8, &fw)) return (TY)fw;                                         \
     return __atomic_load_n(a, __ATOMIC_SEQ_CST);                                                                 \
   }                                                                                                              \
   void __tsan_atomic##bits##_store(volatile TY* a, TY v, int mo) {                                               \
-    (void)mo;                                                                                                    \
     sim_access((const void*)a, bits / 8, K_ASTORE);                                                              \
+    if (tso_store((volatile void*)a, (uint64_t)v, bits / 8, mo)) return;                                         \
+    tso_flush_me();                                                                                              \
     __atomic_store_n(a, v, __ATOMIC_SEQ_CST);                                                                    \
   }                                                                                                              \
   TY __tsan_atomic##bits##_exchange(volatile TY* a, TY v, int mo) {                                              \
     (void)mo;                                                                                                    \
     sim_access((const void*)a, bits / 8, K_RMW);                                                                 \
+    tso_flush_me();                                                                                              \
     return __atomic_exchange_n(a, v, __ATOMIC_SEQ_CST);                                                          \
   }                                                                                                              \
   TY __tsan_atomic##bits##_fetch_add(volatile TY* a, TY v, int mo) {                                             \
     (void)mo;                                                                                                    \
     sim_access((const void*)a, bits / 8, K_RMW);                                                                 \
+    tso_flush_me();                                                                                              \
     return __atomic_fetch_add(a, v, __ATOMIC_SEQ_CST);                                                           \
   }                                                                                                              \
   TY __tsan_atomic##bits##_fetch_sub(volatile TY* a, TY v, int mo) {                                             \
     (void)mo;                                                                                                    \
     sim_access((const void*)a, bits / 8, K_RMW);                                                                 \
+    tso_flush_me();                                                                                              \
     return __atomic_fetch_sub(a, v, __ATOMIC_SEQ_CST);                                                           \
   }                                                                                                              \
   TY __tsan_atomic##bits##_fetch_and(volatile TY* a, TY v, int mo) {                                             \
     (void)mo;                                                                                                    \
     sim_access((const void*)a, bits / 8, K_RMW);                                                                 \
+    tso_flush_me();                                                                                              \
     return __atomic_fetch_and(a, v, __ATOMIC_SEQ_CST);                                                           \
   }                                                                                                              \
   TY __tsan_atomic##bits##_fetch_or(volatile TY* a, TY v, int mo) {                                              \
     (void)mo;                                                                                                    \
     sim_access((const void*)a, bits / 8, K_RMW);                                                                 \
+    tso_flush_me();                                                                                              \
     return __atomic_fetch_or(a, v, __ATOMIC_SEQ_CST);                                                            \
   }                                                                                                              \
   TY __tsan_atomic##bits##_fetch_xor(volatile TY* a, TY v, int mo) {                                             \
     (void)mo;                                                                                                    \
     sim_access((const void*)a, bits / 8, K_RMW);                                                                 \
+    tso_flush_me();                                                                                              \
     return __atomic_fetch_xor(a, v, __ATOMIC_SEQ_CST);                                                           \
   }                                                                                                              \
   TY __tsan_atomic##bits##_fetch_nand(volatile TY* a, TY v, int mo) {                                            \
     (void)mo;                                                                                                    \
     sim_access((const void*)a, bits / 8, K_RMW);                                                                 \
+    tso_flush_me();                                                                                              \
     return __atomic_fetch_nand(a, v, __ATOMIC_SEQ_CST);                                                          \
   }                                                                                                              \
   int __tsan_atomic##bits##_compare_exchange_strong(volatile TY* a, TY* c, TY v, int mo, int fmo) {              \
     (void)mo;                                                                                                    \
     (void)fmo;                                                                                                   \
     sim_access((const void*)a, bits / 8, K_RMW);                                                                 \
+    tso_flush_me();                                                                                              \
     return __atomic_compare_exchange_n(a, c, v, 0, __ATOMIC_SEQ_CST, __ATOMIC_SEQ_CST);                          \
   }                                                                                                              \
   int __tsan_atomic##bits##_compare_exchange_weak(volatile TY* a, TY* c, TY v, int mo, int fmo) {                \
     (void)mo;                                                                                                    \
     (void)fmo;                                                                                                   \
     sim_access((const void*)a, bits / 8, K_RMW);                                                                 \
+    tso_flush_me();                                                                                              \
     return __atomic_compare_exchange_n(a, c, v, 0, __ATOMIC_SEQ_CST, __ATOMIC_SEQ_CST);                          \
   }                                                                                                              \
   TY __tsan_atomic##bits##_compare_exchange_val(volatile TY* a, TY c, TY v, int mo, int fmo) {                   \
     (void)mo;                                                                                                    \
     (void)fmo;                                                                                                   \
     sim_access((const void*)a, bits / 8, K_RMW);                                                                 \
+    tso_flush_me();                                                                                              \
     __atomic_compare_exchange_n(a, &c, v, 0, __ATOMIC_SEQ_CST, __ATOMIC_SEQ_CST);                                \
     return c;                                                                                                    \
   }
@@ -1063,6 +1165,7 @@ AT(8, uint8_t) AT(16, uint16_t) AT(32, uint32_t) AT(64, uint64_t)
 void __tsan_atomic_thread_fence(int mo) {
   (void)mo;
   sim_sched_point(K_FENCE);
+  tso_flush_me();
 }
 void __tsan_atomic_signal_fence(int mo) { (void)mo; }
 
